@@ -670,3 +670,132 @@ pub fn direct_c05(ctx: &mut Ctx) {
     ctx.direct_distinct += evals;
     ctx.notes.push(format!("{} networks x data-set sizes {:?} x pools {:?} x {} repetitions (jitter on from the 2nd): learn (E=2, B=5, with validation), validate, predict_batch compared bit for bit with the single-thread run", jobs.len(), sizes, pools, reps));
 }
+
+
+/* ---------------------------------------------------------------------------------------------
+ * C03: slot independence at the network level (metamorphic, on the implementation)
+ *
+ * `Network::update` hands every parameter tensor to the optimizer under its own slot
+ * (layer, filter, bias).  Whatever the optimizer, the new value of one slot after any history of
+ * steps may depend only on that slot's own values and gradients: running the same history with the
+ * gradients of all *other* slots changed must leave this slot's parameters bit-identical.
+ * ------------------------------------------------------------------------------------------ */
+
+#[derive(Clone, Copy, PartialEq)]
+enum SlotKind { Weights, Bias, Filter(usize) }
+
+fn scale_tensor(t: &mut Tensor, keep_filter: Option<usize>, factor: f32) {
+    match &mut t.data {
+        Data::Single(v) => for x in v.iter_mut() { *x *= factor; },
+        Data::Double(m) => for r in m.iter_mut() { for x in r.iter_mut() { *x *= factor; } },
+        Data::Triple(m) => for a in m.iter_mut() { for r in a.iter_mut() { for x in r.iter_mut() { *x *= factor; } } },
+        Data::Quadruple(q) => for (f, k) in q.iter_mut().enumerate() {
+            if Some(f) == keep_filter { continue; }
+            for a in k.iter_mut() { for r in a.iter_mut() { for x in r.iter_mut() { *x *= factor; } } }
+        },
+        _ => {}
+    }
+}
+
+pub fn direct_c03_slots(ctx: &mut Ctx) {
+    use crate::gen::arch::{input_for, random_net, target_for, ArchCfg};
+    use crate::gen::Gen;
+    use crate::ops::scalar::OptSpec;
+    let nets = ctx.n(6, 40);
+    let opts: Vec<OptSpec> = vec![
+        OptSpec::Sgdm(0.05, 0.9, 0.1, Some(0.01)),
+        OptSpec::Adam(0.01, 0.9, 0.999, 1e-8, None),
+        OptSpec::AdamW(0.01, 0.9, 0.999, 1e-8, 0.01),
+        OptSpec::Rmsprop(0.01, 0.9, 1e-8, None, Some(0.5), true),
+        OptSpec::Rmsprop(0.01, 0.9, 1e-8, Some(0.01), None, false),
+    ];
+    let mut jobs = Vec::new();
+    {
+        let mut g = Gen::new(ctx);
+        // convolutions / deconvolutions with several filters, dense layers with and without bias, no feedback blocks
+        let cfg = ArchCfg { final_dense: Some(3), min_layers: 2, max_layers: 4, max_dim: 4, ..ArchCfg::small() };
+        let mut tries = 0;
+        while jobs.len() < nets && tries < nets * 20 {
+            tries += 1;
+            let (spec, out) = random_net(&mut g, &cfg);
+            if spec.builds.iter().any(|b| matches!(b, Build::Feedback { .. })) { continue; }
+            // at least one spatial layer with >= 2 filters in every second job
+            let multi = spec.builds.iter().any(|b| match b {
+                Build::Layer(InnerSpec::Conv { filters, .. }) | Build::Layer(InnerSpec::Deconv { filters, .. }) => *filters >= 2,
+                _ => false,
+            });
+            if jobs.len() % 2 == 0 && !multi { continue; }
+            let samples: Vec<(Tensor, Tensor)> = (0..3).map(|_| (input_for(&mut g, &spec.input), target_for(&mut g, &out, &spec.obj))).collect();
+            jobs.push((spec, samples));
+        }
+    }
+    let mut evals = 0u64;
+    for (ji, (spec0, samples)) in jobs.iter().enumerate() {
+        let mut spec = spec0.clone();
+        spec.opt = Some(opts[ji % opts.len()].clone());
+        let res = net::try_run(|| {
+            let base = net::build(&spec).unwrap();
+            // one gradient set per step, all taken at the initial weights (any gradients of the right shapes do)
+            let grads: Vec<(Vec<Tensor>, Vec<Option<Tensor>>)> = samples.iter().map(|(x, t)| {
+                let (pre, act, maxp, fbs) = base.forward(x);
+                let (_, g) = base.verif_objective(act.last().unwrap(), t);
+                base.verif_backward(g, &pre, &act, &maxp, fbs)
+            }).collect();
+            // slots in `net_params` order, with their position in the (reversed) gradient vectors
+            let nl = base.layers.len();
+            let mut slots: Vec<(usize, SlotKind)> = Vec::new();
+            for (li, l) in base.layers.iter().enumerate() {
+                let gi = nl - 1 - li;
+                match l {
+                    Layer::Dense(d) => { slots.push((gi, SlotKind::Weights)); if d.verif_bias().is_some() { slots.push((gi, SlotKind::Bias)); } }
+                    Layer::Convolution(c) => for f in 0..c.verif_kernels().len() { slots.push((gi, SlotKind::Filter(f))); },
+                    Layer::Deconvolution(c) => for f in 0..c.verif_kernels().len() { slots.push((gi, SlotKind::Filter(f))); },
+                    _ => {}
+                }
+            }
+            let run = |keep: Option<(usize, SlotKind)>| -> Vec<Vec<f32>> {
+                let mut n = net::build(&spec).unwrap();
+                for (step, (wg, bg)) in grads.iter().enumerate() {
+                    let mut wg = wg.clone();
+                    let mut bg = bg.clone();
+                    if let Some((kgi, kind)) = keep {
+                        for (gi, w) in wg.iter_mut().enumerate() {
+                            let keep_filter = if gi == kgi { match kind { SlotKind::Filter(f) => Some(f), _ => None } } else { None };
+                            if gi == kgi && kind == SlotKind::Weights { continue; }
+                            scale_tensor(w, keep_filter, 0.5);
+                        }
+                        for (gi, b) in bg.iter_mut().enumerate() {
+                            if gi == kgi && kind == SlotKind::Bias { continue; }
+                            if let Some(b) = b.as_mut() { scale_tensor(b, None, 0.5); }
+                        }
+                    }
+                    n.verif_update(step as i32 + 1, wg, bg);
+                }
+                net_params(&n)
+            };
+            let full = run(None);
+            let mut bad: Vec<String> = Vec::new();
+            for (si, (gi, kind)) in slots.iter().enumerate() {
+                let other = run(Some((*gi, *kind)));
+                if si < full.len() && si < other.len() && !same_bits(&full[si], &other[si]) {
+                    let what = match kind { SlotKind::Weights => "weights".to_string(), SlotKind::Bias => "bias".to_string(), SlotKind::Filter(f) => format!("filter {}", f) };
+                    bad.push(format!("layer {} {}", nl - 1 - gi, what));
+                }
+            }
+            (slots.len(), bad)
+        });
+        match res {
+            Ok((n, bad)) => {
+                evals += n as u64;
+                ctx.oracle(bad.is_empty(), "slot-dependence",
+                    "state kept for one parameter slot must never influence another slot: changing the gradients of all other slots must leave a slot's updated parameters bit-identical",
+                    format!("{} (3 update steps through Network::update)", clip(&spec.token(), 700)),
+                    format!("slots whose parameters changed when only other slots' gradients were halved: {:?}", bad), "none".into());
+            }
+            Err(_) => {}
+        }
+    }
+    ctx.direct_evals += evals;
+    ctx.direct_distinct += evals;
+    ctx.notes.push(format!("{} networks x 5 stateful optimizers (round-robin): every parameter slot re-run with all other slots' gradients halved, 3 steps through Network::update, compared bit for bit", jobs.len()));
+}
